@@ -351,7 +351,9 @@ def gen_operator_spec(rng, version=None):
     def rnd(n):
         bits.add(rng.getrandbits(n) if n else 0, n)
 
-    kind = rng.choice(['bitmap', 'bitmap', 'bitmap', 'plain-ops', 'plain-ops'])
+    kind = rng.choice(['bitmap', 'bitmap', 'bitmap', 'plain-ops', 'plain-ops', 'bitmap-blocks', 'bitmap-blocks'])
+    if kind == 'bitmap-blocks':
+        return _gen_bitmap_blocks_spec(rng, version, b, nums, strs)
     if kind == 'plain-ops':
         for _ in range(rng.randint(1, 4)):
             r = rng.random()
@@ -442,6 +444,88 @@ def gen_operator_spec(rng, version=None):
             'observed': True, 'raw_ids': ids, 'raw_data': data.hex(), 'nsub': 1, 'opkind': kind}
 
 
+def _emit_block(rng, b, ids, bits, nums, strs, op):
+    """one self-contained bitmap block: k elements, operator, bitmap over the last nb of them, the
+    bitmapped values, 235000. Every width is exact so that a second block / iteration stays aligned."""
+    k = rng.randint(1, 4)
+    prefix = [rng.choice(nums) for _ in range(k)]
+    if strs and op != 222000 and rng.random() < 0.3:
+        prefix[rng.randrange(k)] = rng.choice(strs)
+    for e in prefix:
+        ids.append(e)
+        bits.add(rng.getrandbits(b[e][4]), b[e][4])
+    ids.append(op)
+    nb = rng.randint(1, k)
+    ids += [101000 + nb, 31031]
+    bitmap = [rng.choice([0, 0, 1]) for _ in range(nb)]
+    if all(bitmap):
+        bitmap[rng.randrange(nb)] = 0
+    for bit in bitmap:
+        bits.add(bit, 1)
+    sel = [e for e, bit in zip(prefix[k - nb:], bitmap) if bit == 0]
+    if op == 222000:
+        q = rng.choice([q for q in (33007, 33002, 33003) if q in b])
+        for _ in sel:
+            ids.append(q)
+            bits.add(rng.getrandbits(b[q][4]), b[q][4])
+    else:
+        sig = {224000: 8023, 225000: 8024}.get(op)
+        if sig and sig in b:
+            ids.append(sig)
+            bits.add(rng.getrandbits(b[sig][4]) & ((1 << b[sig][4]) - 2), b[sig][4])
+        for e in sel:
+            ids.append(op + 255)
+            w = b[e][4] + (1 if op == 225000 else 0)
+            bits.add(rng.getrandbits(w), w)
+    ids.append(235000)
+
+
+def _gen_bitmap_blocks_spec(rng, version, b, nums, strs):
+    """bitmap blocks closed by 235000: two different blocks in a row, or one block inside a fixed /
+    delayed replication executed 0..3 times"""
+    ids = []
+    bits = BitsOut()
+    ops = [222000, 223000, 224000, 225000, 232000]
+    shape = rng.choice(['two', 'two', 'fixed', 'delayed', 'delayed'])
+    if shape == 'two':
+        _emit_block(rng, b, ids, bits, nums, strs, rng.choice(ops))
+        for _ in range(rng.randint(0, 2)):
+            e = rng.choice(nums)
+            ids.append(e)
+            bits.add(rng.getrandbits(b[e][4]), b[e][4])
+        _emit_block(rng, b, ids, bits, nums, strs, rng.choice(ops))
+    else:
+        # the block's descriptor list is generated once; the data of every iteration is generated for
+        # that very list (same bitmap pattern: the number of bitmapped values is fixed by the template)
+        op = rng.choice(ops)
+        state = rng.getstate()
+        inner_ids = []
+        _emit_block(rng, b, inner_ids, BitsOut(), nums, strs, op)
+        after = rng.getstate()
+        n = rng.randint(2, 3) if shape == 'fixed' else rng.choice([0, 1, 2, 2, 3])
+        if shape == 'fixed':
+            ids.append(100000 + len(inner_ids) * 1000 + n)
+        else:
+            ids += [100000 + len(inner_ids) * 1000, 31001]
+            bits.add(n, b[31001][4])
+        ids += inner_ids
+        for _ in range(n):
+            rng.setstate(state)
+            _emit_block(rng, b, [], bits, nums, strs, op)
+        rng.setstate(after)
+        rng.random()
+    if rng.random() < 0.5:
+        e = rng.choice(nums)
+        ids.append(e)
+        bits.add(rng.getrandbits(b[e][4]), b[e][4])
+    data = bits.to_bytes() + bytes(rng.randrange(256) for _ in range(8))
+    ed = rng.choice([3, 4, 4])
+    return {'edition': ed, 'version': version, 'local_version': 0, 'centre': rng.choice([0, 7, 98]),
+            'subcentre': 0, 'category': rng.choice([0, 2, 6, 12]), 'subcategory': 0, 'local_subcategory': 0,
+            'update': 0, 'date': [2021, 2, 3, 4, 5, 6], 'sec2': None, 'pads': {}, 'compressed': False,
+            'observed': True, 'raw_ids': ids, 'raw_data': data.hex(), 'nsub': 1, 'opkind': 'bitmap-blocks-' + shape}
+
+
 class BitsOut(object):
     def __init__(self):
         self.acc = 0
@@ -465,10 +549,49 @@ def operator_messages(seed, n):
         if msg.find(b'BUFR', 1) >= 0:
             continue
         out.append({'ref': 'synop:%d:%d' % (seed, i), 'hex': msg.hex(), 'src': 'operator', 'opkind': spec['opkind']})
+    # 'marker twins': one descriptor list with a marker operator applied through a bitmap to an element
+    # whose Table B definition differs between two master table versions
+    tw = _collision_elements()
+    for i in range(max(2, n // 8)):
+        eid, va, vb = rng.choice(tw)
+        common = [e for e in _elements(va) if e in bufrgen.load_tables(vb)[0] and
+                  bufrgen.load_tables(vb)[0][e][1:] == bufrgen.load_tables(va)[0][e][1:] and
+                  bufrgen.load_tables(va)[0][e][4] <= 32 and bufrgen.load_tables(va)[0][e][1] != bufrgen.STRING_UNIT]
+        c1 = rng.choice(common)
+        op = rng.choice([223000, 224000, 225000, 232000])
+        first_bit = rng.choice([0, 1])
+        ed = rng.choice([3, 4])
+        seedv = rng.getrandbits(32)
+        for v in (va, vb):
+            b, _d = bufrgen.load_tables(v)
+            r2 = random.Random(seedv)
+            ids, bits = [], BitsOut()
+            for e in (c1, eid):
+                ids.append(e)
+                bits.add(r2.getrandbits(b[e][4]), b[e][4])
+            ids += [op, 101002, 31031]
+            bits.add(first_bit, 1)
+            bits.add(0, 1)
+            sig = {224000: 8023, 225000: 8024}.get(op)
+            if sig and sig in b:
+                ids.append(sig)
+                bits.add(r2.getrandbits(b[sig][4]) & ((1 << b[sig][4]) - 2), b[sig][4])
+            for e in ([c1] if first_bit == 0 else []) + [eid]:
+                ids.append(op + 255)
+                w = b[e][4] + (1 if op == 225000 else 0)
+                bits.add(r2.getrandbits(w), w)
+            spec = {'edition': ed, 'version': v, 'local_version': 0, 'centre': 0, 'subcentre': 0, 'category': 0,
+                    'subcategory': 0, 'local_subcategory': 0, 'update': 0, 'date': [2021, 2, 3, 4, 5, 6],
+                    'sec2': None, 'pads': {}, 'compressed': False, 'observed': True, 'raw_ids': ids,
+                    'raw_data': (bits.to_bytes() + b'\0\0').hex(), 'nsub': 1}
+            msg, _t = bufrgen.write_message(spec)
+            if msg.find(b'BUFR', 1) < 0:
+                out.append({'ref': 'synop:%d:mtwin%d-v%d' % (seed, i, v), 'hex': msg.hex(), 'src': 'operator',
+                            'opkind': 'marker-twin', 'twin': 'm%d:%d' % (seed, i)})
     # compressed / multi-subset variants of the same programs: produced by the library's own
     # (interpreting) encoder from the decoded values, in a pristine child each; they carry no ground
     # truth and serve the differential oracles only (history vs fresh, compiled vs interpreted)
-    base = [e for k, e in enumerate(out) if k % 2 == 0]
+    base = [e for k, e in enumerate(out) if k % 2 == 0 and not e.get('twin')]
     res = core.pmap('compress_variant', [{'hex': e['hex'], 'seed': seed + k} for k, e in enumerate(base)], limit=120)
     for e, (st, r) in zip(base, res):
         if st == 'ok' and r:
